@@ -6,7 +6,7 @@ package main
 //
 // runs a real gmtls client against a real gmtls server over an in-memory connection (suite e013 | e053,
 // clientauth none | request | requireany | verifyifgiven | requireverify, ccert = what the client presents:
-// absent | trusted | untrusted | expired | notyet | wrongeku | wrongkey | chainlast, isv = InsecureSkipVerify 0 | 1).
+// absent | trusted | untrusted | expired | notyet | wrongeku | wrongkey | chainlast | viainter | viainter-nochain, isv = InsecureSkipVerify 0 | 1).
 // The attack is applied
 //   - by mis-configuring the malicious end: s-… (certificates / private keys of the server), <ccert>;
 //   - by scripting the malicious end so that its transcript stays consistent: ske-… and cv-… (the end's "private
@@ -574,6 +574,9 @@ func c08EvalAuth(args []string) string {
 		// [the victim's genuine certificate, the attacker's own certificate], CertificateVerify by the attacker's key
 		c := gmtls.Certificate{Certificate: [][]byte{m.client.Certificate[0], o.client.Certificate[0]}, PrivateKey: o.client.PrivateKey}
 		cc = &c
+	case "viainter", "viainter-nochain": // issued by the intermediate CA (c08inter.go), sent with / without it
+		c := c08InterClient(ccert)
+		cc = &c
 	default:
 		return "bad-op"
 	}
@@ -683,6 +686,9 @@ func c08EvalAuth(args []string) string {
 		sc(x.ekuSign, m.enc)
 	case "s-wrongeku-enc":
 		sc(m.sign, x.ekuEnc)
+	// the server's certificates are issued by an intermediate CA; the client trusts the root only (c08inter.go)
+	case "s-inter-ok", "s-inter-ok-both", "s-inter-ok-signchain", "s-inter-ok-third", "s-inter-missing", "s-inter-foreign", "s-inter-expired":
+		st.scfg.Certificates = c08InterServer(attack)
 	// pinning: the client trusts exactly the end-entity certificates (no CA). A trust anchor that is presented as
 	// the peer's own certificate still has to be within its validity period, carry the name and the usage
 	case "s-pinned-ok", "s-pinned-expired-sign", "s-pinned-expired-enc", "s-pinned-notyet-sign", "s-pinned-wrongname", "s-pinned-wrongeku-sign", "s-pinned-other":
@@ -1064,10 +1070,7 @@ func c08EvalAuth(args []string) string {
 		}
 	}
 
-	st.serverCerts = nil
-	for _, c := range st.scfg.Certificates {
-		st.serverCerts = append(st.serverCerts, c.Certificate...)
-	}
+	st.serverCerts = gmExpectedCertList(st.scfg.Certificates) // GM/T 0024: sign, enc, CA chain
 
 	if needCapture {
 		capture = c08NewMitm()
@@ -1285,6 +1288,7 @@ func c08Gen(r *rng, tier string, emit func(string)) {
 			op(su, "none", a, "absent", 1)
 			op(su, "requireverify", a, "trusted", r.intn(2))
 		}
+		c08InterGen(su, policies, op)
 		// the malicious client that holds the certified key
 		for _, a := range c08ClientAttacks {
 			for _, pol := range policies {
